@@ -3,7 +3,7 @@ import json
 import os
 import vlib
 
-PROPS = ['Rangers.Props.C16', 'Rangers.Props.C16B', 'Rangers.Props.C16Qn', 'Rangers.Props.C16Gen', 'Rangers.Props.C16Curve', 'Rangers.Props.C16Window', 'Rangers.Props.C16Msg', 'Rangers.Props.C16Worker', 'Rangers.Props.C16Prime']
+PROPS = ['Rangers.Props.C16', 'Rangers.Props.C16B', 'Rangers.Props.C16Qn', 'Rangers.Props.C16Gen', 'Rangers.Props.C16Curve', 'Rangers.Props.C16Window', 'Rangers.Props.C16Msg', 'Rangers.Props.C16Worker', 'Rangers.Props.C16Prime', 'Rangers.Props.C16Flow']
 DRIVERS = ['C16']
 META = dict(
     level='proof',
@@ -48,9 +48,9 @@ def _classes(paths):
                 elif k in ('qn',):
                     w = x.split(' ')
                     c = w[0] + ' ' + (w[1] if len(w) > 1 and len(w[1]) < 3 else 'big')
-                elif k in ('verify', 'vbv', 'canon'):
+                elif k in ('verify', 'vbv', 'vbt', 'canon', 'cdelta'):
                     c = x
-                elif k in ('s2p', 'prove'):
+                elif k in ('s2p', 'prove', 'gp'):
                     c = x.split(' ')[0]
                 elif k in ('qnr', 'pp'):
                     c = x if len(x) < 3 else 'big'
